@@ -28,7 +28,7 @@ theorem not_mem_nanCells (m : Mesh) (a : NDA (Option V)) (i : List Nat)
 
 omit [Inhabited V] in
 theorem fillOf_ok (dflt : Option (Dflt V)) (m : Mesh) (nv : Nat) (a0 : NDA (Option V))
-    (h : fillOf none dflt m nv = .ok a0) :
+    (h : fillOf dflt m nv = .ok a0) :
     a0.shape = m.n ++ [nv] ∧
     ((∃ arr, dflt = some (.val arr) ∧ ∀ j, a0.get j = some (arr.get (bcastIdx (m.n ++ [nv]) arr.shape j))) ∨
      ((∀ arr, dflt ≠ some (.val arr)) ∧ ∀ j, a0.get j = none)) := by
@@ -62,7 +62,7 @@ theorem dfltCell_val (d : Dflt V) (m : Mesh) (nv : Nat) (hlen : m.n.length = m.n
 wins, otherwise the default -/
 theorem asArray_dict_main (isZero : V → Bool) (items : List (String × Leaf V)) (dflt : Option (Dflt V))
     (m : Mesh) (nv : Nat) (a : NDA V) (hlen : m.n.length = m.ndim)
-    (h : asArray isZero none (.dict items dflt) m nv = .ok a)
+    (h : asArray isZero (.dict items dflt) m nv = .ok a)
     (i : List Nat) (hi : inRange m.n i = true) (c : Nat) (hc : c < nv) :
     a.get (i ++ [c]) =
       match m.subs.findSome? (fun p => patchVal isZero items m nv p (i ++ [c])) with
@@ -167,7 +167,7 @@ theorem asArray_dict_nodefault (isZero : V → Bool) (items : List (String × Le
     (m : Mesh) (nv : Nat)
     (i : List Nat) (hi : inRange m.n i = true) (c : Nat) (hc : c < nv)
     (hun : (m.subs.findSome? fun p => patchVal isZero items m nv p (i ++ [c])) = none) :
-    ∃ e, asArray isZero none (.dict items none) m nv = .error e := by
+    ∃ e, asArray isZero (.dict items none) m nv = .error e := by
   have hj : inRange (m.n ++ [nv]) (i ++ [c]) = true := by rw [inRange_snoc, hi]; simp [hc]
   simp only [asArray, fillOf]
   split
